@@ -174,6 +174,11 @@ fn faults_for(rng: &mut Rng, g: &mut Gen, m: &Model) -> Vec<Fault> {
             bad_target(SelReq::Multi(vec![SelReq::Text(Ref::Id(r.id.clone()), Off::simple(b, e)), SelReq::Composite(vec![SelReq::Text(Ref::Id(r.id.clone()), Off::simple(0, len.min(1)))])])),
             Some(good_new.clone()),
         );
+        // the nested complex selector comes first (or alone): nothing has been resolved when the request is refused
+        let (b2, e2) = crate::gen::gen_range(rng, len);
+        let inner = SelReq::Composite(vec![SelReq::Text(Ref::Id(r.id.clone()), Off::simple(b2, e2)), SelReq::Text(Ref::Id(r.id.clone()), Off::simple(e2, len))]);
+        let members = if rng.chance(1, 2) { vec![inner] } else { vec![inner, SelReq::Text(Ref::Id(r.id.clone()), Off::simple(b, e))] };
+        push("nested-complex-selector-first", bad_target(SelReq::Multi(members)), Some(good_new.clone()));
     }
     {
         let mut r = with_new_data.clone();
